@@ -105,11 +105,11 @@ def _rss_gb() -> float:
 
 def execute(ctx: Ctx, cases: list, cases_file: Path, fn, every: int = 20) -> tuple[list, list]:
     """Pass 2 with a resource guard: runs fn(case) for every case; if the process grows beyond VERIF_RSS_LIMIT_GB (default 6) or
-    the pass exceeds VERIF_EXEC_BUDGET_S (default 900 s quick / 5400 s thorough) the remaining cases are NOT run, the cases file is
+    the pass exceeds VERIF_EXEC_BUDGET_S (default 300 s quick / 3600 s thorough) the remaining cases are NOT run, the cases file is
     cut to the executed prefix and judged as usual: a code change that makes the library leak or crawl shows its wrong answers in
     the prefix (VIOLATION); if the prefix is clean, `judge` raises a machinery failure instead of reporting a pass."""
     limit = float(os.environ.get("VERIF_RSS_LIMIT_GB", "6"))
-    budget = float(os.environ.get("VERIF_EXEC_BUDGET_S", "900" if ctx.quick else "5400"))
+    budget = float(os.environ.get("VERIF_EXEC_BUDGET_S", "300" if ctx.quick else "3600"))
     out_limit = float(os.environ.get("VERIF_RESULT_LIMIT_MB", "96")) * 2**20
     t0, base_rss, results, out_bytes = time.time(), _rss_gb(), [], 0
     for i, c in enumerate(cases):
